@@ -177,6 +177,8 @@ pub const SRC_LAZY: &[Src] = &[Src::LazyRef, Src::LazyMut, Src::LazyDrained, Src
 pub enum Sink {
     Drop,
     Downcast,
+    /// `downcast_unchecked` (the type is the right one)
+    DowncastUnchecked,
     DowncastRefThenDrop,
     MovePush,
     MoveInsert,
@@ -186,7 +188,7 @@ pub enum Sink {
     Forget,
 }
 pub const SINKS_C01: &[Sink] =
-    &[Sink::Drop, Sink::Downcast, Sink::DowncastRefThenDrop, Sink::MovePush, Sink::MoveInsert, Sink::MutateThenDowncast, Sink::LazyCloneThenDrop, Sink::Typed];
+    &[Sink::Drop, Sink::Downcast, Sink::DowncastUnchecked, Sink::DowncastRefThenDrop, Sink::MovePush, Sink::MoveInsert, Sink::MutateThenDowncast, Sink::LazyCloneThenDrop, Sink::Typed];
 
 #[derive(Clone)]
 pub struct Spec {
